@@ -284,9 +284,20 @@ impl std::ops::Not for RowIdMask {
     type Output = Self;
 
     fn not(self) -> Self::Output {
-        Self {
-            block_list: self.allow_list,
-            allow_list: self.block_list,
+        // Collapse to a single list first: the complement of `allow - block`
+        // is not `block - allow`.
+        match self.normalize() {
+            Self {
+                allow_list: None,
+                block_list: None,
+            } => Self::allow_nothing(),
+            Self {
+                allow_list,
+                block_list,
+            } => Self {
+                block_list: allow_list,
+                allow_list: block_list,
+            },
         }
     }
 }
